@@ -22,6 +22,7 @@ package uncurry
 import (
 	"fmt"
 	"go/types"
+	"strconv"
 	"strings"
 
 	"github.com/awalterschulze/goderive/derive"
@@ -70,10 +71,31 @@ func (g *gen) Add(name string, typs []types.Type) (string, error) {
 	if sig.Variadic() || retSig.Variadic() {
 		return "", fmt.Errorf("%s, the function %s is variadic, which is not supported", name, g.TypeString(sig))
 	}
+	// The two parameter lists are merged into one: an inner parameter that bears the name of the outer one is renamed.
+	retSig = renameParam(retSig, params.At(0).Name(), "innerParam_")
 	retSig = derive.RenameBlankIdentifierWith(retSig, "innerParam_")
 	newTup := types.NewTuple(types.NewVar(retVar.Pos(), retVar.Pkg(), retVar.Name(), retSig))
 	sig = types.NewSignature(sig.Recv(), sig.Params(), newTup, sig.Variadic())
 	return g.SetFuncName(name, derive.RenameBlankIdentifier(sig))
+}
+
+// renameParam returns the signature with the parameters of the given name renamed to the prefix and their index.
+func renameParam(sig *types.Signature, name, prefix string) *types.Signature {
+	params := sig.Params()
+	vars := make([]*types.Var, params.Len())
+	renamed := false
+	for i := range vars {
+		v := params.At(i)
+		if name != "" && name != "_" && v.Name() == name {
+			v = types.NewVar(v.Pos(), v.Pkg(), prefix+strconv.Itoa(i), v.Type())
+			renamed = true
+		}
+		vars[i] = v
+	}
+	if !renamed {
+		return sig
+	}
+	return types.NewSignature(sig.Recv(), types.NewTuple(vars...), sig.Results(), sig.Variadic())
 }
 
 func (g *gen) Generate(typs []types.Type) error {
